@@ -5,7 +5,8 @@
 EXTENDS Naturals, FiniteSets, TLC
 CONSTANTS K,                      \* bits per address in the model (3)
           MaxEntries,             \* entries per list
-          DevNoneWhenListsEmpty   \* current config layer: no lists => no access control at all
+          DevNoneWhenListsEmpty,  \* current config layer: no lists => no access control at all
+          DevEmptyAllowIsAbsent   \* deviation: "allow_list = []" is read as "no allow list" (everybody in, where nobody should be)
 Fams == {4, 6}
 RECURSIVE Pow2(_)
 Pow2(n) == IF n = 0 THEN 1 ELSE 2 * Pow2(n - 1)
@@ -20,14 +21,17 @@ WellFormedPolicy(p) == (~p.allowSet => p.allow = {}) /\ (~p.denySet => p.deny = 
 \* ---- the property's statement ------------------------------------------------------
 Admit(p, a) ==
   /\ \A n \in p.deny : ~Contains(n, a)
-  /\ IF p.allow # {} THEN \E n \in p.allow : Contains(n, a) ELSE p.default
-Grey(p) == p.allowSet /\ p.allow = {}      \* "allow_list = []": configured-but-empty, left undecided
+  /\ IF p.allowSet THEN \E n \in p.allow : Contains(n, a) ELSE p.default      \* a configured list that is empty contains nobody
+Grey(p) == FALSE      \* ("allow_list = []" was left undecided until the third hunt: the statement says "no allow list is configured")
+AdmitDev(p, a) == /\ \A n \in p.deny : ~Contains(n, a)
+                  /\ IF p.allow # {} THEN \E n \in p.allow : Contains(n, a) ELSE p.default
 
 \* ---- what the running server does ---------------------------------------------------
 \* configuration layer: is an AccessControl component built at all?
 Built(p) == p.enabled /\ (IF DevNoneWhenListsEmpty THEN (p.allow # {} \/ p.deny # {})
-                                                    ELSE (p.allow # {} \/ p.deny # {} \/ ~p.default))
-Decision(p, a) == IF ~p.enabled THEN TRUE ELSE IF Built(p) THEN Admit(p, a) ELSE TRUE
+                                                    ELSE IF DevEmptyAllowIsAbsent THEN (p.allow # {} \/ p.deny # {} \/ ~p.default)
+                                                    ELSE (p.allowSet \/ p.deny # {} \/ ~p.default))
+Decision(p, a) == IF ~p.enabled THEN TRUE ELSE IF Built(p) THEN (IF DevEmptyAllowIsAbsent THEN AdmitDev(p, a) ELSE Admit(p, a)) ELSE TRUE
 
 VARIABLES pol, addr, out
 vars == <<pol, addr, out>>
